@@ -19,6 +19,17 @@ A read never "fails" in the model: `slice` returns what is inside the buffer.  M
 namespace Cppcms.C19
 open Cppcms
 
+/-- `cppcms::json::value` and its text form, as far as the archive is concerned: external to this model
+(property C11).  `write` = `value::save(std::ostream&, compact)` (`none`: it throws `bad_value_cast`, e.g. on an
+undefined member), `read` = `value::load(std::istream&, full = true)` into a value (`none`: it returns false).
+The driver instantiates it with C11's executable parser and writer; the theorems are stated for any codec. -/
+class JsonCodec where
+  J : Type
+  write : J → Option Bytes
+  read : Bytes → Option J
+
+variable [JsonCodec]
+
 /-! ## bytes and little-endian numbers -/
 
 /-- little-endian value of a byte string -/
@@ -54,6 +65,7 @@ inductive Err
   | hdr      -- "Invalid archive format"   (fewer than 4 bytes left)
   | size     -- "Invalid archive_format"   (length rejected)
   | len      -- "Invalid block length"     (read_chunk: next != len)
+  | json     -- "Invalid json"             (archive_traits<json::value>::load: value::load returned false)
   deriving DecidableEq, Repr
 
 structure St where
@@ -123,6 +135,7 @@ inductive Ty
   | mset (t : Ty)          -- std::multiset<T>
   | mmap (k v : Ty)        -- std::multimap<K,V>
   | arr (t : Ty) (n : Nat) -- T[n], T not arithmetic: n elements, no count (arithmetic T[n] is one chunk = `pod`)
+  | json                   -- cppcms::json::value: one chunk holding its compact text
   deriving DecidableEq, Repr
 
 /-- values: PODs and POD vectors are their raw bytes; sets and maps are the in-order element lists -/
@@ -138,6 +151,7 @@ def Val : Ty → Type
   | .mset t => List (Val t)
   | .mmap k v => List (Val k × Val v)
   | .arr t _ => List (Val t)
+  | .json => JsonCodec.J
 
 /-! ## ordering of keys (`operator<` of the C++ types) -/
 
@@ -168,6 +182,7 @@ def lt : (ty : Ty) → Val ty → Val ty → Bool
   | .mset t, a, b => ltLex (lt t) a b
   | .mmap k v, a, b => ltLex (fun x y => lt k x.1 y.1 || (!lt k y.1 x.1 && lt v x.2 y.2)) a b
   | .arr t _, a, b => ltLex (lt t) a b
+  | .json, _, _ => false          -- json::value has no operator<; never a key
 
 /-- `std::set<T>::insert(x)`: position by `<`, an equivalent element already present wins -/
 def setInsert {α : Type} (lt : α → α → Bool) (x : α) : List α → List α
@@ -209,6 +224,29 @@ def save : (ty : Ty) → Val ty → Bytes
   | .mset t, v => saveCount v.length ++ v.flatMap (save t)
   | .mmap k w, v => saveCount v.length ++ v.flatMap (fun x => save k x.1 ++ save w x.2)
   | .arr t _, v => v.flatMap (save t)
+  | .json, v => chunk ((JsonCodec.write v).getD [])     -- meaningful only when `savable` (below): otherwise C++ throws
+
+/-- `archive_traits<T>::save` returns normally: no `json::value` inside throws while being written -/
+def savable : (ty : Ty) → Val ty → Bool
+  | .pod _, _ => true
+  | .str, _ => true
+  | .vecPod _, _ => true
+  | .seq t, v => v.all (savable t)
+  | .set t, v => v.all (savable t)
+  | .map k w, v => v.all (fun x => savable k x.1 && savable w x.2)
+  | .pair a b, v => savable a v.1 && savable b v.2
+  | .ptr t, v =>
+    match v with
+    | none => true
+    | some x => savable t x
+  | .mset t, v => v.all (savable t)
+  | .mmap k w, v => v.all (fun x => savable k x.1 && savable w x.2)
+  | .arr t _, v => v.all (savable t)
+  | .json, v => (JsonCodec.write v).isSome
+
+/-- what `archive_traits<T>::save` into a fresh archive produces; `none` = an exception (`json::bad_value_cast`)
+leaves the function -/
+def saveE (ty : Ty) (v : Val ty) : Option Bytes := if savable ty v then some (save ty v) else none
 
 /-! ## load -/
 
@@ -237,6 +275,13 @@ def msetOfList {α : Type} (lt : α → α → Bool) (l : List α) : List α :=
 def mmapOfList {α β : Type} (lt : α → α → Bool) (l : List (α × β)) : List (α × β) :=
   l.foldl (fun acc x => mmapInsert lt x acc) []
 
+/-- `archive_traits<json::value>::load`: the chunk as a string, `value::load(ss,true)`, "Invalid json" if it fails -/
+def loadJson {α : Type} (rd : Bytes → Option α) (b : Bytes) (s : St) : Res α :=
+  (readChunkAsString b s).bind fun text s1 =>
+    match rd text with
+    | some v => .ok v s1
+    | none => .err .json s1
+
 def load (b : Bytes) : (ty : Ty) → St → Res (Val ty)
   | .pod n, s => readChunk b n s
   | .str, s => readChunkAsString b s
@@ -253,6 +298,7 @@ def load (b : Bytes) : (ty : Ty) → St → Res (Val ty)
   | .mmap k v, s =>
     (loadCount b s).bind fun n s1 => (loadN (loadPair (load b k) (load b v)) n s1).map (mmapOfList (lt k))
   | .arr t n, s => loadN (load b t) n s
+  | .json, s => loadJson JsonCodec.read b s
 
 /-- state after `archive::str(bytes)` -/
 def St.init : St := { ptr := Gen.strPtr, reads := [] }
